@@ -103,7 +103,7 @@ def apply_op(scn, op):
     return None
 
 
-def random_op(rng, fail_bits=False):
+def random_op(rng, fail_bits=False, names=None):
     import ifam
     r = rng.random()
     if r < 0.15:
@@ -113,7 +113,7 @@ def random_op(rng, fail_bits=False):
     if fail_bits and r < 0.33:
         return ('cbits', rng.choice([0, 0, 1 << rng.randint(0, 13)]))
     if r < 0.6:
-        e = ifam.make_event(rng)
+        e = ifam.make_event(rng, names)
         return ('queue', e.name, tuple(sorted(e.data.items())))
     return ('exec',)
 
